@@ -66,17 +66,21 @@ type Req struct {
 	// Dress: request attributes no plugin's decision is documented to depend on.
 	// "" | upgrade-websocket | upgrade-h2c | expect-continue | put | patch | delete | auth-header | range |
 	// cors-preflight | cors-preflight-min | options | head | trace | connect | origin | origin-acrm |
-	// method-override | propfind | options-lower | cookie | forwarded
+	// method-override | propfind | options-lower | cookie | forwarded | get-body
 	Dress string `json:"dress,omitempty"`
 	// ExtraKeys: further X-API-Key field lines after the first (APIKey). What a plugin makes of a
 	// request with several key lines is not documented (first line, any line, refuse as
 	// ambiguous): either decision is accepted, the gating has to be consistent with it.
 	ExtraKeys []string `json:"extra_keys,omitempty"`
+	// Target: request-target template, path[?query] with "{t}" standing for the request's unique
+	// token; "" = the lab's default unique path (see target.go). Neither order nor gating is
+	// documented to depend on where a request goes.
+	Target string `json:"target,omitempty"`
 }
 
 // Dresses lists the values of Req.Dress.
 var Dresses = []string{"", "upgrade-websocket", "upgrade-h2c", "expect-continue", "put", "patch", "delete", "auth-header", "range",
-	"cors-preflight", "cors-preflight-min", "options", "head", "trace", "connect", "origin", "origin-acrm", "method-override", "propfind", "options-lower", "cookie", "forwarded"}
+	"cors-preflight", "cors-preflight-min", "options", "head", "trace", "connect", "origin", "origin-acrm", "method-override", "propfind", "options-lower", "cookie", "forwarded", "get-body"}
 
 // applyDress puts the dressing on a request (method and header fields only; path, body and the
 // X-API-Key lines stay what the case says). Every shape is one a client can put on the wire:
@@ -142,6 +146,8 @@ func applyDress(r *http.Request, dress, apiKey string) {
 	case "forwarded":
 		r.Header.Set("X-Forwarded-For", "127.0.0.1")
 		r.Header.Set("X-Real-IP", "127.0.0.1")
+	case "get-body":
+		r.Method = "GET" // a GET may carry a body (RFC 9110 9.3.1): the declared length is what size_limit reads
 	}
 }
 
@@ -405,8 +411,12 @@ func Run(h http.Handler, rq Req) Observation {
 		method = "POST"
 	}
 	body = strings.NewReader(strings.Repeat("x", rq.Body))
-	path := uniquePath()
-	r := httptest.NewRequest(method, "http://helios.test"+path, body)
+	// the request-target: the case's template (default: a unique path); exact conventional paths
+	// carry no token - requests are served one at a time wherever such a target is drawn, and
+	// logLines counts (and forgets) everything logged for the path up to its call
+	target := expandTarget(rq.Target, "/some/path/{t}", fmt.Sprintf("r%d", pathSeq.Add(1)))
+	r := httptest.NewRequest(method, "http://helios.test"+target, body)
+	path := r.URL.Path
 	r.RemoteAddr = "10.0.0.1:4000"
 	if rq.APIKey != "" {
 		r.Header.Set("X-API-Key", rq.APIKey)
